@@ -321,3 +321,51 @@ mod kernels {
         pp.opening_key.batch_check(points, &proofs, &mut transcript)
     }
 }
+
+#[cfg(feature = "std")]
+pub use force::{force_enabled, set_force};
+#[cfg(feature = "std")]
+pub(crate) use force::forced_quotient;
+
+/// Prover force switch: a thread-local flag read once per proof on the
+/// calling thread. When set, the quotient computation skips its
+/// unsatisfied-circuit check and keeps only the `4n + 7` low coefficients
+/// (what an honest quotient would occupy), i.e. the remainder is dropped. This
+/// models the "honest algorithm forced past its check" adversary; it is never
+/// set by the crate itself.
+#[cfg(feature = "std")]
+mod force {
+    use std::cell::Cell;
+
+    use crate::error::Error;
+    use crate::fft::{EvaluationDomain, Polynomial};
+
+    std::thread_local! {
+        static FORCE: Cell<bool> = const { Cell::new(false) };
+    }
+
+    /// Enable or disable the force switch for the current thread.
+    pub fn set_force(on: bool) {
+        FORCE.with(|f| f.set(on));
+    }
+
+    /// Whether the force switch is set on the current thread.
+    pub fn force_enabled() -> bool {
+        FORCE.with(|f| f.get())
+    }
+
+    pub(crate) fn forced_quotient(
+        quotient: Polynomial,
+        quotient_domain: &EvaluationDomain,
+    ) -> Result<Polynomial, Error> {
+        let n = quotient_domain.size() / 8;
+        let mut coeffs = quotient.to_vec();
+        coeffs.truncate(4 * n + 7);
+        let truncated = Polynomial::from_coefficients_vec(coeffs);
+        // the prover slices the quotient at 3n; a shorter one cannot be split
+        if truncated.len() <= 3 * n {
+            return Err(Error::CircuitUnsatisfied);
+        }
+        Ok(truncated)
+    }
+}
